@@ -358,6 +358,40 @@ def r_feature_methods(repo, rep, R='R14.6'):
     return n
 
 
+def r_no_settings(repo, rep, R='R14.1'):
+    """a rule is a function of its two categories: nothing in the grammar modules asks for a process-wide setting (the selected
+    language of depccg.lang) while it runs -- the same pair would give another result after the next set_global_language_to()."""
+    n = 0
+    for rel in (EN, JA, 'depccg/grammar/__init__.py'):
+        mod = repo.module(rel)
+        tree = ast.parse(repo.text(rel))
+        from ..core import attach_parents, enclosing_function
+        attach_parents(tree)
+        settings = {}
+        for imp in ast.walk(tree):
+            if isinstance(imp, ast.ImportFrom) and imp.module in ('depccg.lang', 'depccg') or isinstance(imp, ast.ImportFrom) and imp.level and imp.module == 'lang':
+                for a in imp.names:
+                    if imp.module.endswith('lang') or a.name == 'lang':
+                        settings[a.asname or a.name] = a.name
+            if isinstance(imp, ast.Import):
+                for a in imp.names:
+                    if a.name == 'depccg.lang':
+                        settings[(a.asname or 'depccg')] = 'depccg.lang'
+        hits = []
+        for x in ast.walk(tree):
+            if isinstance(x, ast.Name) and isinstance(x.ctx, ast.Load) and x.id in settings and enclosing_function(x) is not None:
+                hits.append(x)
+        n += 1
+        for x in hits:
+            fn = enclosing_function(x)
+            rep.violation(R, '%s:%s %s' % (rel, x.lineno, fn.name), '%s:%s:reads-setting:%s' % (rel, fn.name, settings[x.id]),
+                          '%s reads `%s` of depccg.lang while it runs: what a rule returns for a pair of categories then depends on which language was '
+                          'selected last in this process, not on the pair alone (the same call gives another head / result after set_global_language_to)' % (fn.name, x.id))
+        if not hits:
+            rep.ok(R, rel, '%s: no function asks for the process-wide language setting' % rel)
+    return n
+
+
 def check(repo, rep, tier):
     rep.rule('R14.1', 'purity: no mutation of parameters / module-level objects in the closure of apply_*_rules')
     rep.rule('R14.2', 'no order-sensitive iteration over a set')
@@ -370,7 +404,10 @@ def check(repo, rep, tier):
     rep.floor('loops inspected for set iteration', n_loops, 5)
     r_gate(repo, rep)
     r_unary(repo, rep)
-    n_sites = ru.r_client_typestate(repo, rep, [EN, JA], R='R14.6')
+    r_no_settings(repo, rep)
+    n_sites = ru.r_client_typestate(repo, rep, [EN, JA, 'depccg/grammar/__init__.py'], R='R14.6')
+    from .c06 import shared_sites
+    n_sites += shared_sites(repo, rep)
     rep.floor('Unification(...) client sites', n_sites, 16)
     n_reads = 0
     from ..pysym import VOCABULARY
